@@ -231,7 +231,7 @@ Qed.
 Lemma plain_not_delim d c s : dfacts d -> plain_char d c = true -> delim_at d (c :: s) = None.
 Proof.
   intros F H. unfold plain_char in H.
-  apply andb_true_iff in H as [H Hb]. apply andb_true_iff in H as [H Hcs]. apply andb_true_iff in H as [Hts Hss].
+  apply andb_true_iff in H as [H Hcs]. apply andb_true_iff in H as [Hts Hss].
   apply negb_true_iff in Hts, Hss, Hcs.
   unfold delim_at.
   rewrite (prefixb_hd_neq (d_ts d)); [ | apply F | intro E; rewrite E, N.eqb_refl in Hts; discriminate ].
@@ -243,14 +243,14 @@ Qed.
 Lemma plain_not_ts d c s : dfacts d -> plain_char d c = true -> prefixb (d_ts d) (c :: s) = false.
 Proof.
   intros F H. unfold plain_char in H.
-  apply andb_true_iff in H as [H Hb]. apply andb_true_iff in H as [H Hcs]. apply andb_true_iff in H as [Hts Hss].
+  apply andb_true_iff in H as [H Hcs]. apply andb_true_iff in H as [Hts Hss].
   apply negb_true_iff in Hts. apply prefixb_hd_neq. apply F. intro E; rewrite E, N.eqb_refl in Hts; discriminate.
 Qed.
 
 Lemma plain_not_ss d c s : dfacts d -> plain_char d c = true -> prefixb (d_ss d) (c :: s) = false.
 Proof.
   intros F H. unfold plain_char in H.
-  apply andb_true_iff in H as [H Hb]. apply andb_true_iff in H as [H Hcs]. apply andb_true_iff in H as [Hts Hss].
+  apply andb_true_iff in H as [H Hcs]. apply andb_true_iff in H as [Hts Hss].
   apply negb_true_iff in Hss. apply prefixb_hd_neq. apply F. intro E; rewrite E, N.eqb_refl in Hss; discriminate.
 Qed.
 
@@ -258,7 +258,7 @@ Lemma plain_not_cs d c s : dfacts d -> plain_char d c = true -> nonempty (d_cs d
   prefixb (d_cs d) (c :: s) = false.
 Proof.
   intros F H Hne. unfold plain_char in H.
-  apply andb_true_iff in H as [H Hb]. apply andb_true_iff in H as [H Hcs]. rewrite Hne in Hcs. cbn [andb] in Hcs.
+  apply andb_true_iff in H as [H Hcs]. rewrite Hne in Hcs. cbn [andb] in Hcs.
   apply negb_true_iff in Hcs. apply prefixb_hd_neq; auto. intro E; rewrite E, N.eqb_refl in Hcs; discriminate.
 Qed.
 
